@@ -602,14 +602,12 @@ fn parse_shortflags<'c, 's>(
         match short.next_flag() {
             Some(Ok(opt)) => {
                 leading_flags.push(opt);
+                // The parser answers to hidden aliases as well
                 let opt = cmd.get_arguments().find(|a| {
-                    let shorts = a.get_short_and_visible_aliases();
-                    let is_find = shorts.map(|v| {
-                        let mut iter = v.into_iter();
-                        let c = iter.find(|c| *c == opt);
-                        c.is_some()
-                    });
-                    is_find.unwrap_or(false)
+                    a.get_short() == Some(opt)
+                        || a.get_all_short_aliases()
+                            .map(|v| v.into_iter().any(|c| c == opt))
+                            .unwrap_or(false)
                 });
                 if opt
                     .map(|o| o.get_num_args().expect("built").takes_values())
